@@ -1605,6 +1605,18 @@ func injectorTemplateForms() []*Program {
 		p.Extra["0/zz_driver.go"] = drvHdr + "func Scenarios() {\n\t_ = Init(1, \"s\")\n}\n"
 		progs = append(progs, p)
 	}
+	// the wire.Build call in parentheses: still the template of an injector
+	for _, v := range []struct{ id, note, body string }{
+		{"paren-build", "wire.Build call statement in parentheses", "\t(wire.Build(NewSvc))\n\treturn nil\n"},
+		{"panic-paren-build", "panic of a parenthesised wire.Build call", "\tpanic((wire.Build(NewSvc)))\n"},
+		{"paren-panic-build", "parenthesised panic of a wire.Build call", "\t(panic(wire.Build(NewSvc)))\n"},
+	} {
+		p := mk(v.id, v.note, false)
+		p.Extra["0/decl.go"] = "package app\n\ntype Svc struct{ N int }\n\nfunc NewSvc() *Svc { return &Svc{N: 1} }\n\nfunc NewOther() int { return 2 }\n"
+		p.Extra["0/wire.go"] = hdr + "import \"github.com/google/wire\"\n\nfunc Init() *Svc {\n" + v.body + "}\n\n// InitOther makes the file an injector file in any case.\nfunc InitOther() int {\n\tpanic(wire.Build(NewOther))\n}\n"
+		p.Extra["0/zz_driver.go"] = drvHdr + "import \"example.com/m/tr\"\n\nfunc Scenarios() {\n\ttr.Injector(\"" + p.ID + "\", \"Init\", nil, func(c_ *tr.Call) {\n\t\tres_ := Init()\n\t\ttr.Note(\"template_form\", \"" + v.id + "\", res_ != nil && res_.N == 1, InitOther())\n\t})\n}\n"
+		progs = append(progs, p)
+	}
 	// comments that read like build constraints: gofmt hoists such lines to the top of the
 	// generated file, where they would replace or extend the generated "!wireinject"
 	for _, v := range []struct{ id, note, wire string }{
